@@ -14,6 +14,8 @@
 use std::collections::BTreeMap;
 use std::io::Write;
 use std::panic;
+use std::sync::Mutex;
+use std::time::{Duration, Instant};
 use streaming_iterator::StreamingIterator;
 use tree_sitter::{Language, LossyUtf8, Node, Parser, Point, Query, QueryCursor, Range};
 use tree_sitter_highlight::{Highlight, HighlightConfiguration, HighlightEvent, Highlighter, HtmlRenderer};
@@ -23,6 +25,30 @@ const STMT_HL: &str = include_str!("stmt_highlights.scm");
 const STMT_LOCALS: &str = include_str!("stmt_locals.scm");
 const STMT_INJ_B: &str = include_str!("stmt_injections_b.scm");
 const LANGS: [&str; 3] = ["stmt", "tmpl", "host"];
+
+/// Watchdog: the case currently running in the real code (start time, replayable spec).  If one case
+/// exceeds the limit the process prints `HANG <spec>` and exits with code 3, so that a change making
+/// the highlighter loop forever becomes a reported input instead of a stuck check.
+static CURRENT: Mutex<Option<(Instant, String)>> = Mutex::new(None);
+
+fn watch_begin(spec: String) {
+    *CURRENT.lock().unwrap() = Some((Instant::now(), spec));
+}
+fn watch_end() {
+    *CURRENT.lock().unwrap() = None;
+}
+fn start_watchdog() {
+    let secs: u64 = std::env::var("VERIF_C17_CASE_TIMEOUT").ok().and_then(|s| s.parse().ok()).unwrap_or(20);
+    std::thread::spawn(move || loop {
+        std::thread::sleep(Duration::from_millis(200));
+        if let Some((t, spec)) = &*CURRENT.lock().unwrap() {
+            if t.elapsed() > Duration::from_secs(secs) {
+                eprintln!("HANG {spec}");
+                std::process::exit(3);
+            }
+        }
+    });
+}
 
 struct LangDef {
     language: Language,
@@ -393,6 +419,7 @@ fn emit_highlight(w: &mut World, out: &mut impl Write, id: &str, root: usize, va
         cfgs.push(cfg);
     }
     let crs = crh.map(|c| c.to_string()).unwrap_or("-".into());
+    watch_begin(format!("H {} {variant} {names_mode} {crs} {}", LANGS[root], hx(src)));
     let mut evs = Vec::new();
     let mut err = None;
     {
@@ -454,6 +481,7 @@ fn emit_highlight(w: &mut World, out: &mut impl Write, id: &str, root: usize, va
         writeln!(out, "locals {}", p.join(",")).unwrap();
     }
     writeln!(out, "run hl").unwrap();
+    watch_end();
     !injs.is_empty()
 }
 
@@ -488,6 +516,7 @@ fn emit_merge(w: &mut World, out: &mut impl Write, id: &str, li: usize, names_mo
     let names = pick_names(&all, names_mode);
     let mut cfg = HighlightConfiguration::new(ld.language.clone(), LANGS[li], &ld.highlights, "", "").expect("config");
     cfg.configure(&names);
+    watch_begin(format!("M {} {names_mode} {}", LANGS[li], hx(src)));
     let mut evs = Vec::new();
     let mut err = None;
     match w.highlighter.highlight(&cfg, src, None, None, |_| None) {
@@ -527,6 +556,7 @@ fn emit_merge(w: &mut World, out: &mut impl Write, id: &str, li: usize, names_mo
         writeln!(out, "error {}", e.replace(' ', "_")).unwrap();
     }
     writeln!(out, "caps {}\nrun merge", if cs.is_empty() { "-".into() } else { cs.join(",") }).unwrap();
+    watch_end();
 }
 
 // ---------------------------------------------------------------------------------------------
@@ -750,6 +780,7 @@ fn run_spec(w: &mut World, out: &mut impl Write, id: &str, fields: &[&str]) -> b
 fn main() {
     limit_resources();
     panic::set_hook(Box::new(|_| {}));
+    start_watchdog();
     let args: Vec<String> = std::env::args().collect();
     let out_path = args.get(1).expect("usage: c17 <ops-file> [--spec file]").clone();
     let mut out = std::io::BufWriter::new(std::fs::File::create(&out_path).unwrap());
